@@ -216,9 +216,8 @@ struct ThetaANotBFamily {
       typename ThUpdate::builder b(a);
       ThUpdate ua = b.set_lg_k(5).build(), ub = b.set_lg_k(5).build();
       theta_feed(ua, 1 + seed, 90); theta_feed(ub, 8 + seed, 40);
-      LibScope ls;
-      auto r1 = x.compute(ua, ub, true);
-      auto r2 = x.compute(ua.compact(false), ub.compact(true), false);   // rvalue a
+      auto r1 = [&] { LibScope ls; return x.compute(ua, ub, true); }();
+      auto r2 = [&] { LibScope ls; return x.compute(ua.compact(false), ub.compact(true), false); }();   // rvalue a
       theta_show(r1, os); theta_show(r2, os);
     }
     all_registries().pop_back();
